@@ -102,7 +102,7 @@ func buildSandbox(work string) (string, error) {
 }
 
 func sandboxStream(sum *Summary, model *vd.Model, n int, seed int64) {
-	sum.Rule = "the sandbox binary built from /repo/cmd/sandbox, run on generated policy files: missing, a directory, malformed YAML, wrong types, unknown action, unknown syscall, unknown operation, empty syscalls list, a policy the kernel refuses (> 4096 instructions), no command, and valid policies over the probe syscalls (conditions on all six registers, errno/allow/log actions, with -no-new-privs true/false); the target is a separate program image that records that it ran and issues the probe syscalls; compared with SandboxSpec (exit status, target started or not) and with Spec.decision per probe; distinct by (policy file, events); non-trivial = an invalid file, or a valid one with at least one non-allow decision"
+	sum.Rule = "the sandbox binary built from /repo/cmd/sandbox, run on generated policy files: missing, a directory, malformed YAML, wrong types, unknown action, unknown syscall, unknown operation, empty syscalls list, the same name twice in a group, a name with and without conditions in one group, a policy the kernel refuses (> 4096 instructions), no command, and valid policies (one in five larger than 64 KiB; a third named by a relative path with a valid namesake next to the executable) over the probe syscalls (conditions on all six registers, errno/allow/log actions, with -no-new-privs true/false); the target is a separate program image that records that it ran and issues the probe syscalls; compared with SandboxSpec (exit status, target started or not) and with Spec.decision per probe; distinct by (policy file, events); non-trivial = an invalid file, or a valid one with at least one non-allow decision"
 	dir := os.Getenv("VERIF_DIR")
 	if dir == "" {
 		dir = "/verif"
